@@ -379,7 +379,7 @@ pub fn run(ctx: &mut Ctx) {
     // unannotated terms; the ontology itself as background (the documented call)
     for n in 2..=(if thorough { 4 } else { 3 }) {
         let dags = crate::space::all_dags(n);
-        ctx.space(&format!("hierarchy/D{n}"), &format!("{} labelled DAGs, record i on term i (genes) / i + 1 (OMIM) / i + 2 (ORPHA) cyclically (inherited by its ancestors), a bare record: every non-empty background subset B (and `&ontology` itself) x every non-empty sample S within B x 3 kinds: one result per record linked to a sample term, K and k counted over inherited links, exact tail, fold", dags.len()));
+        ctx.space(&format!("hierarchy/D{n}"), &format!("{} labelled DAGs, record i on term i (genes) / i + 1 (OMIM) / i + 2 (ORPHA) cyclically (inherited by its ancestors), a bare record, an OMIM and an ORPHA disease with the same number on the same term; ontology built by the Builder and, where the loaders take the hp.obo, loaded by from_standard and from_standard_transitive (OMIM / ORPHA twin in adjacent rows): every non-empty background subset B (and `&ontology` itself) x every non-empty sample S within B x 3 kinds: one result per record linked to a sample term, K and k counted over inherited links, exact tail, fold", dags.len()));
         for d in &dags {
             if !ctx.take() {
                 continue;
@@ -403,13 +403,30 @@ pub fn run(ctx: &mut Ctx) {
                 f.anns.push(Facts::ann(kind, 71, "R-last-then-first", Some(ids[ids.len() - 1])));
                 f.anns.push(Facts::ann(kind, 71, "R-last-then-first", Some(ids[0])));
             }
+            // an OMIM and an ORPHA disease that share their number, on the same term, in adjacent rows of the file
+            f.anns.push(Facts::ann(Kind::Omim, 72, "twin number, OMIM", Some(ids[0])));
+            f.anns.push(Facts::ann(Kind::Orpha, 72, "twin number, ORPHA", Some(ids[0])));
             let r = crate::model::RefOnt::derive(&f);
             let Ok(ont) = drive::build(&f, Mode::Minimal) else {
                 ctx.violation("Builder", "[builder] construction fails on valid facts", json!({"case": f.to_json()}));
                 continue;
             };
             ctx.transitions(f.n_steps());
+            // the same facts loaded from hp.obo and the annotation files (both loaders), where the loaders take them:
+            // an hp.obo without HP:0000118 or with several roots is outside what the loaders are documented for
+            let mut onts: Vec<(&str, Ontology)> = vec![("Builder", ont)];
+            for transitive in [false, true] {
+                match crate::jax::load(&crate::jax::render(&f, &crate::jax::JaxOpts::default()), transitive) {
+                    Ok(Ok(o)) => {
+                        ctx.transitions(f.n_steps());
+                        onts.push((if transitive { "from_standard_transitive" } else { "from_standard" }, o));
+                    }
+                    _ => ctx.bump("skipped: text loaders refuse this hp.obo (no HP:0000118 / several roots)", 1),
+                }
+            }
             let full = (1u32 << n) - 1;
+            for (route, ont) in &onts {
+            let route = *route;
             for bmask in 1..=full + 1 {
                 // bmask == full + 1 stands for `&ontology` handed over as the background
                 let whole = bmask == full + 1;
@@ -425,9 +442,9 @@ pub fn run(ctx: &mut Ctx) {
                         let got = guard(|| {
                             let smp = s_ids.iter().map(|t| ont.hpo(*t).unwrap());
                             let mut v: Vec<(u32, u64, f64, f64)> = match (kind, whole) {
-                                (Kind::Gene, true) => gene_enrichment(&ont, smp).iter().map(|e| (e.id().as_u32(), e.count(), e.pvalue(), e.enrichment())).collect(),
-                                (Kind::Omim, true) => omim_disease_enrichment(&ont, smp).iter().map(|e| (e.id().as_u32(), e.count(), e.pvalue(), e.enrichment())).collect(),
-                                (Kind::Orpha, true) => orpha_disease_enrichment(&ont, smp).iter().map(|e| (e.id().as_u32(), e.count(), e.pvalue(), e.enrichment())).collect(),
+                                (Kind::Gene, true) => gene_enrichment(ont, smp).iter().map(|e| (e.id().as_u32(), e.count(), e.pvalue(), e.enrichment())).collect(),
+                                (Kind::Omim, true) => omim_disease_enrichment(ont, smp).iter().map(|e| (e.id().as_u32(), e.count(), e.pvalue(), e.enrichment())).collect(),
+                                (Kind::Orpha, true) => orpha_disease_enrichment(ont, smp).iter().map(|e| (e.id().as_u32(), e.count(), e.pvalue(), e.enrichment())).collect(),
                                 (Kind::Gene, false) => gene_enrichment(bg_ids.iter().map(|t| ont.hpo(*t).unwrap()), smp).iter().map(|e| (e.id().as_u32(), e.count(), e.pvalue(), e.enrichment())).collect(),
                                 (Kind::Omim, false) => omim_disease_enrichment(bg_ids.iter().map(|t| ont.hpo(*t).unwrap()), smp).iter().map(|e| (e.id().as_u32(), e.count(), e.pvalue(), e.enrichment())).collect(),
                                 (Kind::Orpha, false) => orpha_disease_enrichment(bg_ids.iter().map(|t| ont.hpo(*t).unwrap()), smp).iter().map(|e| (e.id().as_u32(), e.count(), e.pvalue(), e.enrichment())).collect(),
@@ -435,7 +452,7 @@ pub fn run(ctx: &mut Ctx) {
                             v.sort_by_key(|x| x.0);
                             v
                         });
-                        let case = |extra: serde_json::Value| json!({"facts": f.to_json(), "background": if whole { json!("&ontology") } else { json!(bg_ids) }, "sample": s_ids, "kind": kind.name(), "detail": extra});
+                        let case = |extra: serde_json::Value| json!({"facts": f.to_json(), "background": if whole { json!("&ontology") } else { json!(bg_ids) }, "sample": s_ids, "kind": kind.name(), "ontology_built_by": route, "detail": extra});
                         let res = match got {
                             Ok(x) => x,
                             Err(p) => {
@@ -445,7 +462,7 @@ pub fn run(ctx: &mut Ctx) {
                         };
                         let linked = |t: u32, rec: u32| r.terms[&t].recs[kind.idx()].contains(&rec);
                         let (big_n, sn) = (bg_ids.len(), s_ids.len());
-                        let want: Vec<(u32, usize, usize)> = (0..n as u32).map(|i| 50 + i).chain([70u32, 71]).map(|rec| (rec, bg_ids.iter().filter(|t| linked(**t, rec)).count(), s_ids.iter().filter(|t| linked(**t, rec)).count())).filter(|w| w.2 > 0).collect();
+                        let want: Vec<(u32, usize, usize)> = (0..n as u32).map(|i| 50 + i).chain([70u32, 71, 72]).map(|rec| (rec, bg_ids.iter().filter(|t| linked(**t, rec)).count(), s_ids.iter().filter(|t| linked(**t, rec)).count())).filter(|w| w.2 > 0).collect();
                         if res.len() != want.len() || res.iter().zip(&want).any(|(x, w)| x.0 != w.0) {
                             ctx.violation(site(kind), "not exactly one record per annotation linked to a sample term", case(json!({"observed_ids": res.iter().map(|x| x.0).collect::<Vec<_>>(), "expected_ids": want.iter().map(|w| w.0).collect::<Vec<_>>()})));
                             continue;
@@ -466,9 +483,11 @@ pub fn run(ctx: &mut Ctx) {
                     smask = (smask - 1) & bm;
                 }
             }
+            }
             ctx.sample(|| json!({"dag": d.describe(), "ids": ids}));
         }
     }
+    crate::jax::cleanup();
     // ---- sample sets that come about through every public route (constructed, grown by Extend, filtered,
     // obsolete members replaced, reduced to child nodes, derived from a record): the enrichment of a set is
     // about its members, whichever route produced it
